@@ -15,7 +15,12 @@ use serde::de::DeserializeOwned;
 use serde::Serialize;
 use serde_json::{json, Value};
 
-pub const VERIF_ROOT: &str = "/verif";
+pub const VERIF_ROOT_DEFAULT: &str = "/verif";
+
+/// Root directory for corpus/, replays/, evidence/, known_findings.json (env PV_ROOT overrides; used by tools/mutant.sh).
+pub fn verif_root() -> PathBuf {
+    PathBuf::from(std::env::var("PV_ROOT").unwrap_or_else(|_| VERIF_ROOT_DEFAULT.to_string()))
+}
 
 #[derive(Clone, Copy, Debug, PartialEq, Eq)]
 pub enum Tier {
@@ -133,7 +138,7 @@ pub struct KnownFinding {
 }
 
 pub fn load_known_findings() -> Vec<KnownFinding> {
-    let p = Path::new(VERIF_ROOT).join("known_findings.json");
+    let p = verif_root().join("known_findings.json");
     match std::fs::read_to_string(&p) {
         Ok(s) => {
             let v: Value = serde_json::from_str(&s).expect("known_findings.json must parse");
@@ -194,7 +199,9 @@ impl Stats {
     }
     /// Record a case that is non-trivial by the property's rule; `key` identifies it.
     pub fn nontrivial<K: Hash>(&mut self, key: &K) {
-        if !self.frozen {
+        // Capped so that thorough tiers with tens of millions of cases stay in memory; beyond the
+        // cap the count is a conservative under-estimate.
+        if !self.frozen && self.nontrivial.len() < 4_000_000 {
             self.nontrivial.insert(hash_of(key));
         }
     }
@@ -369,7 +376,7 @@ impl Ctx {
             return;
         }
         // ---- corpus (committed regression cases) ----
-        let corpus_dir = Path::new(VERIF_ROOT).join("corpus").join(&self.id);
+        let corpus_dir = verif_root().join("corpus").join(&self.id);
         if let Ok(rd) = std::fs::read_dir(&corpus_dir) {
             let mut files: Vec<_> = rd.filter_map(|e| e.ok()).map(|e| e.path()).collect();
             files.sort();
@@ -477,7 +484,7 @@ impl Ctx {
     }
 
     pub fn write_replay<C: Serialize + Debug>(&self, sub: &str, case: &C, reason: &str) -> PathBuf {
-        let dir = Path::new(VERIF_ROOT).join("replays").join(&self.id);
+        let dir = verif_root().join("replays").join(&self.id);
         let _ = std::fs::create_dir_all(&dir);
         let v = json!({
             "property": self.id, "sub": sub, "case": case, "reason": reason,
@@ -531,7 +538,7 @@ impl Ctx {
             "wall_s": wall,
             "violations": self.violations.len(),
         });
-        let dir = Path::new(VERIF_ROOT).join("evidence").join(".parts");
+        let dir = verif_root().join("evidence").join(".parts");
         let _ = std::fs::create_dir_all(&dir);
         let mode = if self.replay.is_some() { "replay" } else { "run" };
         if mode == "run" {
